@@ -44,20 +44,26 @@ if not skip:
 dst = os.path.join(ROOT, "seeded", name)
 shutil.rmtree(dst, ignore_errors=True)
 shutil.copytree(sd, dst, ignore=shutil.ignore_patterns("target", "*.o"))
-# run the checks against /repo with the change applied
-rc, out = sh(["git", "-C", "/repo", "status", "--porcelain"], "/repo")
-if out.strip():
-    print("/repo is not clean:", out); sys.exit(3)
-rc, out = sh(["git", "-C", "/repo", "apply", "--3way", patch], "/repo")
+# run the checks against a scratch worktree of /repo's HEAD with the change applied (/repo itself is left alone, so
+# that other runs that build from /repo are not disturbed); the checks follow VERIF_REPO
+RUNREPO = os.environ.get("SEED_RUN_REPO", "/tmp/seedrun/repo")
+head = subprocess.run(["git", "-C", "/repo", "rev-parse", "HEAD"], stdout=subprocess.PIPE, text=True).stdout.strip()
+if not os.path.isdir(RUNREPO):
+    os.makedirs(os.path.dirname(RUNREPO), exist_ok=True)
+    subprocess.run(["git", "-C", "/repo", "worktree", "add", "-q", "--detach", RUNREPO, head], check=True)
+else:
+    subprocess.run(["git", "-C", RUNREPO, "checkout", "-q", "--detach", head], check=True)
+    subprocess.run(["git", "-C", RUNREPO, "checkout", "--", "."], check=True)
+rc, out = sh(["git", "-C", RUNREPO, "apply", "--3way", patch], RUNREPO)
 if rc != 0:
-    rc, out = sh(["git", "-C", "/repo", "apply", patch], "/repo")
+    rc, out = sh(["git", "-C", RUNREPO, "apply", patch], RUNREPO)
 if rc != 0:
-    print("patch does not apply to /repo:", out); sys.exit(4)
+    print("patch does not apply to the current HEAD of /repo:", out); sys.exit(4)
 results = {}
 try:
     for p in [prop] + others:
         t0 = time.time()
-        e2 = dict(os.environ, VERIF_SEED=os.environ.get("VERIF_SEED", "1"))
+        e2 = dict(os.environ, VERIF_SEED=os.environ.get("VERIF_SEED", "1"), VERIF_REPO=RUNREPO)
         r = subprocess.run([sys.executable, os.path.join(ROOT, "tools", "vpcheck.py"), "--property", p, "--tier", os.environ.get("TIER", "quick")], cwd=ROOT, env=e2, stdout=subprocess.PIPE, stderr=subprocess.STDOUT, text=True)
         viol = [l for l in r.stdout.splitlines() if l.startswith("VIOLATION")]
         detail = ""
@@ -70,10 +76,10 @@ try:
         results[p] = {"rc": r.returncode, "caught": r.returncode == 1, "wall_s": round(time.time() - t0, 1), "violation": viol[:1], "detail": detail}
         print(p, json.dumps(results[p]), flush=True)
 finally:
-    subprocess.run(["git", "-C", "/repo", "reset", "-q"], check=False)
-    subprocess.run(["git", "-C", "/repo", "checkout", "--", "."], check=False)
-rc, out = sh(["git", "-C", "/repo", "status", "--porcelain"], "/repo")
-print("repo clean:", not out.strip())
+    subprocess.run(["git", "-C", RUNREPO, "reset", "-q"], check=False)
+    subprocess.run(["git", "-C", RUNREPO, "checkout", "--", "."], check=False)
+rc, out = sh(["git", "-C", RUNREPO, "status", "--porcelain"], RUNREPO)
+print("scratch repo clean:", not out.strip())
 meta_path = os.path.join(dst, "meta.json")
 try:
     meta = json.load(open(meta_path))
